@@ -315,6 +315,14 @@ func runConcurrent(seed int64, useRaft bool) *JCase {
 	all = append(all, mrec)
 	linearize(c, all, global, wrecs)
 	c.Stats = map[string]int{"workers": nWorkers, "ops": len(all), "commits": len(global) - 1, "watchers": nWatch}
+	if c.Oracle != "" {
+		for _, o := range all {
+			c.History = append(c.History, JHist{o.worker, o.start, o.end, o.op, o.out})
+		}
+		sort.Slice(c.History, func(i, j int) bool { return c.History[i].Start < c.History[j].Start })
+		c.Watched = global
+		c.Note = "concurrent history: not replayable deterministically; re-run with the same -seed (the schedule is the runtime's)"
+	}
 	if c.Oracle == "" {
 		oracleSched(c) // the clauses of the property on the witness history (CAS exclusion, uids, lifetimes, reads)
 		st := c.Stats
